@@ -189,6 +189,38 @@ def illcond_probe(seed):
     return bad, n
 
 
+def active_lb_probe(seed):
+    """Over-determined positive systems in the regime with a positive lower bound that is ACTIVE at the optimum (the
+    unconstrained optimum wants a negative intensity).  Clauses that need no oracle: the default fit returns without
+    error and within the bounds; its weighted error is not worse than that of the high-accuracy solver by more than the
+    default accuracy."""
+    import_dreye()
+    from dreye.api.optimize.lsq_linear import lsq_linear
+    bad, n = [], 0
+    cases = [(np.array([[2, .5], [1, 2], [.5, 1.]]), np.array([20., 3., 9.]))]
+    rng = np.random.default_rng(seed + 77)
+    for _ in range(150):
+        A = rng.uniform(0.5, 2.0, (3, 2))
+        x = np.array([rng.uniform(3, 9.5), -rng.uniform(0.2, 2.0)])[rng.permutation(2)]
+        cases.append((A, np.maximum(A @ x, 1.0)))
+    lb, ub = 0.05, 10.0
+    for A, b in cases:
+        n += 1
+        w = dict(op="lsq_linear", acc="default", active_lb=True, below=False, zero=False)
+        try:
+            X = np.asarray(lsq_linear(A, b.copy(), lb=lb, ub=ub), float)
+        except Exception as ex:
+            bad.append(("C04.no-error", dict(exc=type(ex).__name__, **w), None, repr(ex)[:200], dict(A=A.tolist(), b=b.tolist())))
+            continue
+        if np.any(X < lb - 1e-2 * (ub - lb)) or np.any(X > ub + 1e-2 * (ub - lb)):
+            bad.append(("C04.bounds", w, [lb, ub], X.tolist(), dict(A=A.tolist(), b=b.tolist())))
+        Xh = np.asarray(lsq_linear(A, b.copy(), lb=lb, ub=ub, solver="CLARABEL"), float)
+        e, eh = np.linalg.norm(A @ X.ravel() - b), np.linalg.norm(A @ Xh.ravel() - b)
+        if e > eh + 2e-2 * np.sqrt(3):
+            bad.append(("C04.optimal-pred", w, float(eh), float(e), dict(A=A.tolist(), b=b.tolist())))
+    return bad, n
+
+
 def _chunk(args):
     sts, high = args
     out = [replay_state(st, high) for st in sts]
@@ -223,6 +255,11 @@ def run(ctx):
             ctx.count("targets:" + ("in-gamut" if f["zero"] else "below-baseline" if f["below"] else "outside"))
             if any(a != 0 for a in f["asg"]):
                 ctx.nontrivial.add((repr(st["sys"]["A"]), repr(st["sys"]["lb"]), repr(st["sys"]["ub"]), st["sys"]["kk"], repr(st["sys"]["Kn"]), repr(st["sys"]["bl"]), tuple(st["w"]), tuple(f["b"])))
+    abad, anum = active_lb_probe(ctx.seed)
+    for clause, where, exp, obs, case in abad:
+        ctx.violation(clause, where, dict(probe=case), exp, obs)
+    ctx.count("active positive lower bound probe calls", anum)
+    ctx.evaluations += anum
     ibad, inum = illcond_probe(ctx.seed)
     for clause, where, exp, obs, case in ibad:
         ctx.violation(clause, where, dict(probe=case), exp, obs)
